@@ -154,6 +154,9 @@ pub struct WakerRec {
     pub fires: Vec<u32>,
     /// for probe wakers: how often the wrapped waker was invoked (by anyone)
     pub ext: Option<Arc<AtomicU32>>,
+    /// storm mode: handed to a helper thread (which invokes it at a time the
+    /// harness does not control)
+    pub sent: bool,
 }
 
 pub enum NodeKind {
@@ -862,6 +865,7 @@ pub fn leaf_poll(id: NodeId, cx: &mut Context<'_>) -> LeafOut {
             waker: Some(waker),
             fires: Vec::new(),
             ext: None,
+            sent: false,
         });
         let (answer, act) = match step {
             Step::Later => (Answer::Pend(PendKind::Later), Act::Pend),
@@ -1153,6 +1157,7 @@ pub fn comb_poll_begin(id: NodeId, cx_waker: &Waker, top: bool) -> Waker {
             waker: None,
             fires: Vec::new(),
             ext: if top { None } else { Some(fired) },
+            sent: false,
         });
         n.polls.push(PollRec {
             begin,
